@@ -13,6 +13,7 @@ import (
 	"strings"
 	"sync"
 	"time"
+	"unicode/utf8"
 )
 
 // RenderContext holds the state during template rendering
@@ -560,7 +561,7 @@ func (ctx *RenderContext) callLengthFunction(args []interface{}) (interface{}, e
 
 	switch v.Kind() {
 	case reflect.String:
-		return len(v.String()), nil
+		return utf8.RuneCountInString(v.String()), nil
 	case reflect.Slice, reflect.Array:
 		return v.Len(), nil
 	case reflect.Map:
